@@ -7,6 +7,7 @@ import FlatccModel.Ident
 import FlatccModel.Emitter
 import FlatccModel.PrintFlush
 import FlatccModel.SchemaNum
+import FlatccModel.Layout
 /-! `fmodel`: executes the model's definitions on protocol lines (stdin → stdout, one result line per op line). -/
 open Flatcc Flatcc.Util
 
@@ -344,6 +345,22 @@ def schemaNumOp (op : String) (args : List String) : String :=
     | none => "unmodelled"
   | _, _ => "bad-op"
 
+def layoutOp (op : String) (args : List String) : String :=
+  open Flatcc.Layout in
+  match op, args with
+  | "layout", [fa, ms] =>
+    let members : List Member := if ms == "_" then [] else (ms.splitOn ",").map (fun t =>
+      match t.splitOn ":" with
+      | [s, a] => ⟨natArg s, natArg a⟩
+      | _ => ⟨0, 1⟩)
+    (match layoutStruct members (natArg fa) with
+     | some (size, align, offs) => s!"{size} {align} " ++ ",".intercalate (offs.map toString)
+     | none => "reject")
+  | "ids", [bs] =>
+    let fields := if bs == "_" then [] else (bs.splitOn ",").map (fun t => t == "1")
+    ",".intercalate ((assignIds fields 0).map toString)
+  | _, _ => "bad-op"
+
 def step (line : String) : String :=
   match line.trimAscii.toString.splitOn " " with
   | "num" :: args => numOp args
@@ -352,6 +369,8 @@ def step (line : String) : String :=
   | "emit" :: args => emitOp args
   | "pr" :: args => prOp args
   | "lit" :: args => schemaNumOp "lit" args
+  | "layout" :: args => layoutOp "layout" args
+  | "ids" :: args => layoutOp "ids" args
   | "enum" :: args => schemaNumOp "enum" args
   | "sort" :: args => sortOp ("sort" :: args)
   | "find" :: args => sortOp ("find" :: args)
